@@ -236,6 +236,16 @@ type SecScheme struct {
 	FieldName   string `json:"fieldName,omitempty"`
 	Scheme      string `json:"scheme,omitempty"`
 	Description string `json:"description"`
+	// oauth2 / openIdConnect
+	Flows            map[string]*OAuthFlow `json:"flows,omitempty"`
+	OpenIDConnectURL string                `json:"openIdConnectUrl,omitempty"`
+}
+
+type OAuthFlow struct {
+	AuthorizationURL string            `json:"authorizationUrl,omitempty"`
+	TokenURL         string            `json:"tokenUrl,omitempty"`
+	RefreshURL       string            `json:"refreshUrl,omitempty"`
+	Scopes           map[string]string `json:"scopes"`
 }
 
 type Config struct {
